@@ -22,6 +22,8 @@ var c24Spec = lockSpec{pkgRel: "", typ: "TranslateFile", mutex: "mu",
 func c24(p *core.Program, r *core.Report) {
 	r.Rule("R5", "a slot matches by key bytes: in every method of the translate key index that probes idx.elems and returns a bool, each iteration of the probing loop returns true only on a path where bytes.Equal over idx.lookupKey(<slot offset>) was found true")
 	c24MatchByKeyBytes(p, r)
+	r.Rule("R6", "table pointers are current: in a TranslateFile method that takes the write lock, a variable assigned from an element of the guarded maps cols/rows is used only after an assignment made since the last Lock/RLock/Unlock/RUnlock of the store's mutex")
+	c24TablePointerIsCurrent(p, r)
 	r.Rule("R1", "guarded-by TranslateFile.mu: the key tables (cols, rows), the log size n, the writer w, the mapped data, the file handle and writeNotify are accessed only with mu held (helpers that access them unlocked must be given the lock by every caller); they are written only under the exclusive lock; every Lock/RLock is released on every exit")
 	r.NotDecided = "robin-hood insertion and growth, hash collisions, replication resume over the network, positivity and stability of ids as values"
 	la := newLockAnalysis(p, c24Spec)
